@@ -82,7 +82,6 @@ def run_unit(uname, tier):
         engine = getattr(mod, "ENGINE", "verus")
         out["engine"] = engine
         if engine == "verus":
-            g = mod.build(tier)
             kw = {}
             if getattr(mod, "RLIMIT", None):
                 kw["rlimit"] = mod.RLIMIT
@@ -90,14 +89,31 @@ def run_unit(uname, tier):
                 kw["timeout"] = mod.TIMEOUT
             if getattr(mod, "EXTRA_ARGS", None):
                 kw["extra_args"] = mod.EXTRA_ARGS
-            r = vrun.run_verus(g, os.path.join(WORK, uname), **kw)
-            out.update({k: r[k] for k in ("verified", "errors", "functions", "failures", "undecided",
-                                          "smt_ms", "cmd", "file")})
-            out["rewrites"] = g.rewrites
-            out["clauses"] = g.contract_clauses
-            out["items"] = [{k: it[k] for k in ("name", "kind", "file", "src_line", "src_end", "sha256",
-                                                "under_contract", "trusted")} for it in g.items]
-            out["gen_text_scan"] = scan_assumptions(g.text())
+            shard_ids = mod.shards(tier) if hasattr(mod, "shards") else [None]
+            gens = [mod.build(tier) if sid is None else mod.build(tier, shard=sid) for sid in shard_ids]
+
+            def one(pair):
+                sid, g = pair
+                return vrun.run_verus(g, os.path.join(WORK, uname), tag=(None if sid is None else str(sid)),
+                                      threads=(None if sid is None else 2), **kw)
+            with cf.ThreadPoolExecutor(max_workers=int(os.environ.get("VERIF_SHARD_JOBS", "8"))) as ex:
+                rs = list(ex.map(one, zip(shard_ids, gens)))
+            out["cmd"] = rs[0]["cmd"] + (" (+%d more shards)" % (len(rs) - 1) if len(rs) > 1 else "")
+            out["file"] = rs[0]["file"]
+            scan = []
+            for g, r in zip(gens, rs):
+                out["verified"] += r["verified"]
+                out["errors"] += r["errors"]
+                out["functions"].update(r["functions"])
+                out["failures"] += r["failures"]
+                out["undecided"] += r["undecided"]
+                out["smt_ms"] += r["smt_ms"]
+                out["rewrites"] += g.rewrites
+                out["clauses"] += g.contract_clauses
+                out["items"] += [{k: it[k] for k in ("name", "kind", "file", "src_line", "src_end", "sha256",
+                                                     "under_contract", "trusted")} for it in g.items]
+                scan += scan_assumptions(g.text())
+            out["gen_text_scan"] = sorted(set(scan))
             # vacuity control
             if hasattr(mod, "build") and getattr(mod, "HAS_MUSTFAIL", True):
                 try:
@@ -163,19 +179,27 @@ def freeze(unit, res):
 # ---------------------------------------------------------------------------
 
 def build_replay():
-    """build /verif/replay against /repo's working tree; -> path of binary or None"""
-    env = dict(os.environ)
-    env["CARGO_NET_OFFLINE"] = "true"
-    env["CARGO_TARGET_DIR"] = os.path.join(WORK, "replay-target")
-    lock = os.path.join(ROOT, "replay", "Cargo.lock")
+    """copy /verif/replay to .work, point it at the repository under check (REPO), build it
+    offline against that working tree; -> (path of binary or None, error text)"""
+    import shutil
+    tag = hashlib.sha1(REPO.encode()).hexdigest()[:8]
+    srcdir = os.path.join(WORK, "replay-src-" + tag)
+    os.makedirs(os.path.join(srcdir, "src"), exist_ok=True)
+    tpl = open(os.path.join(ROOT, "replay", "Cargo.toml.in")).read().replace("@REPO@", REPO)
+    with open(os.path.join(srcdir, "Cargo.toml"), "w") as f:
+        f.write(tpl)
+    for fn in os.listdir(os.path.join(ROOT, "replay", "src")):
+        shutil.copy(os.path.join(ROOT, "replay", "src", fn), os.path.join(srcdir, "src", fn))
     try:
-        import shutil
-        shutil.copy(os.path.join(REPO, "Cargo.lock"), lock)
+        shutil.copy(os.path.join(REPO, "Cargo.lock"), os.path.join(srcdir, "Cargo.lock"))
     except OSError:
         pass
-    p = subprocess.run(["cargo", "build", "--offline", "--quiet"], cwd=os.path.join(ROOT, "replay"), env=env,
+    env = dict(os.environ)
+    env["CARGO_NET_OFFLINE"] = "true"
+    env["CARGO_TARGET_DIR"] = os.path.join(WORK, "replay-target-" + tag)
+    p = subprocess.run(["cargo", "build", "--offline", "--quiet"], cwd=srcdir, env=env,
                        stdout=subprocess.PIPE, stderr=subprocess.PIPE, text=True)
-    binp = os.path.join(WORK, "replay-target", "debug", "vreplay")
+    binp = os.path.join(env["CARGO_TARGET_DIR"], "debug", "vreplay")
     if p.returncode != 0 or not os.path.exists(binp):
         return None, p.stderr[-3000:]
     return binp, ""
